@@ -240,6 +240,11 @@ impl Udp {
         self.binds.keys().any(|p| *p == port)
     }
 
+    #[cfg(feature = "verif-hooks")]
+    pub(crate) fn verif_bind_count(&self) -> usize {
+        self.binds.len()
+    }
+
     pub(crate) fn is_broadcast_enabled(&self, port: u16) -> bool {
         self.binds
             .get(&port)
@@ -491,6 +496,11 @@ impl Tcp {
 
     pub(crate) fn stream_count(&self) -> usize {
         self.sockets.len()
+    }
+
+    #[cfg(feature = "verif-hooks")]
+    pub(crate) fn verif_bind_count(&self) -> usize {
+        self.binds.len()
     }
 
     pub(crate) fn accept(&mut self, addr: SocketAddr) -> Option<(Syn, SocketAddr)> {
